@@ -87,6 +87,10 @@ func (e extractor) extract(node ast.Node) {
 		if err := pomsg.Validate(node); err != nil {
 			exit(err)
 		}
+		if len(node.Body.Children()) == 0 {
+			// nothing to translate (and the empty msgid is the header entry).
+			return
+		}
 		var pluralVar = ""
 		if plural, ok := node.Body.Children()[0].(*ast.MsgPluralNode); ok {
 			pluralVar = " var=" + plural.VarName
